@@ -24,7 +24,8 @@ PROPS = {
                        "arbitrary loop iteration",
     },
     "C01": {
-        "classes": r"^(?!step\.early).*" + SEM + r"|^(step|prologue)\.no-panic",
+        # the semi-naive induction rests on the structural invariants (C04): they are re-checked as hypotheses
+        "classes": r"^(?!step\.early).*" + SEM + r"|^(step|prologue)\.no-panic|^(?!step\.early).*" + STRUCT,
         "lemmas": lambda n: True,
         "witness": "closed",
         "explanation": "bounded inductive verification: the semi-naive invariant INV-sn (every all-old match of every stage of the "
@@ -70,7 +71,8 @@ PROPS = {
                        "closed and free)",
     },
     "C06": {
-        "classes": r"^(step|prologue)\.(noalloc|progress|dirty-exact)",
+        # the termination argument rests on the loop-head invariant: its structural part is re-checked as a hypothesis
+        "classes": r"^(step|prologue)\.(noalloc|progress|dirty-exact)|^(prologue|step\.continue): " + STRUCT,
         "lemmas": lambda n: n == "step" or n == "prologue",
         "witness": "noalloc",
         "only_surjective": True,
@@ -81,7 +83,7 @@ PROPS = {
                        "(U+1) * (sum of U^arity + 1) * 2 iterations on every model with at most U elements per type",
     },
     "C15": {
-        "classes": r"enum\.|^enumq\.",
+        "classes": r"enum\.|^enumq\.|^(?!step\.early).*" + STRUCT,
         "lemmas": lambda n: True,
         "witness": "enum",
         "only_enum": True,
@@ -201,6 +203,9 @@ def main():
         plans = [(2, 2, 2), (2, 3, 2), (2, 4, 3), (3, 3, 2), (3, 4, 3)] if tier == "quick" else \
                 [(2, 2, 2), (2, 3, 2), (2, 4, 3), (2, 5, 3), (3, 3, 2), (3, 4, 3), (3, 5, 3), (3, 6, 4)]
         kind = cfg["witness"]
+        if kind == "forced":
+            # also histories with an intermediate close: plan (U, 10*k1 + k2, K) = k1 calls, close, k2 calls, close
+            plans = [(2, 2, 2), (2, 11, 2), (2, 3, 2), (2, 21, 3), (2, 4, 3), (2, 22, 3), (3, 3, 2), (3, 21, 3)] + ([] if tier == "quick" else [(3, 4, 3), (3, 22, 3), (3, 5, 3), (3, 32, 3)])
         if prop == "C07" and any(l.startswith("step.contract") for l in rest):
             kind = "contract"
         if prop == "C02" and all(l.startswith("effects.") for l in rest):
